@@ -567,11 +567,15 @@ String String::concat(const char* b, int n) const
 
 void String::append(const char* b, int n)
 {
+	const char* s0 = str();
+	int offset = (b >= s0 && b <= s0 + _len) ? int(b - s0) : -1; // b may point into this string (s += s)
 	if(_len+n >= _size)
 		resize(_len+n);
 	else
 		_len += n;
 	char* s = str();
+	if (offset >= 0) // follow the buffer if it moved
+		b = s + offset;
 	memcpy(s+_len-n, b, n);
 	s[_len] = '\0';
 }
